@@ -27,9 +27,17 @@
   Every operation returns the store *and* an `Except`: a Python exception raised after a mutation leaves
   the mutation in place.
 
+  `on_state_change` is an adversary: `_update_state` calls it INSIDE the lock region, after the state field
+  was written, only when the state changed, with the new state; it may return or raise.  `Obs` is what the
+  observer does at that one call (a stateful observer is a different `Obs` at every call — histories
+  quantify over one `Obs` per step and store).  The `…O` functions take the observer; the plain names
+  (`updateState`, `consume`, `regenerate`, `deposit`, `exitDormancy`, `reset`) are the same functions with no
+  observer installed (`on_state_change=None`).
+
   Not modelled: console output (`silent=True` in the harness), the background regeneration thread
-  (`regeneration_rate = 0`), `on_state_change` (None), timestamps and the content of `_transactions`
-  (only its length), `get_report`'s float health score.
+  (`regeneration_rate = 0`; when > 0 it is another actor calling `regenerate(int(rate))` once a second, i.e.
+  a `regenerate` op in a C05 interleaving), timestamps and the content of `_transactions` (only its
+  length), `get_report`'s float fields.
 -/
 namespace Operon.Atp
 
@@ -43,7 +51,16 @@ inductive Cur where
 
 inductive Exc where
   | zeroDivision
+  /-- whatever the `on_state_change` observer raised (`tag` names it) -/
+  | observer (tag : Nat)
   deriving Repr, DecidableEq
+
+/-- What the `on_state_change` observer does when called with the new state: return (`none`) or raise
+    exception number `k` (`some k`). -/
+abbrev Obs := MState → Option Nat
+
+/-- `on_state_change=None` (or an observer that always returns) -/
+def Obs.silent : Obs := fun _ => none
 
 /-- The exact value `num / den` of a Python true division of two ints (`den ≠ 0`). -/
 structure Quo where
@@ -109,8 +126,9 @@ def Store.worth (s : Store) : Int := s.atp + s.gtp + s.nadh - s.debt
 def pyDiv (a b : Int) : Except Exc Quo :=
   if b = 0 then .error .zeroDivision else .ok ⟨a, b⟩
 
-/-- `_update_state`: the state field is the only thing written, and only if no division raised. -/
-def updateState (cls : Classifier) (s : Store) : Store × Except Exc Unit :=
+/-- `_update_state`: the state field is the only thing written, and only if no division raised; then, if the
+    state changed, the observer is called with the new state (the field is already written when it raises). -/
+def updateStateO (cls : Classifier) (obs : Obs) (s : Store) : Store × Except Exc Unit :=
   let cap := s.maxAtp + s.maxGtp
   let cur := s.atp + s.gtp
   let base : Except Exc (Option Quo) :=
@@ -123,7 +141,15 @@ def updateState (cls : Classifier) (s : Store) : Store × Except Exc Unit :=
       if s.debt > 0 ∧ cap > 0 then (pyDiv s.debt cap).map some else .ok none
     match pen with
     | .error e => (s, .error e)
-    | .ok p => ({ s with state := cls r p }, .ok ())
+    | .ok p =>
+      let st := cls r p
+      if st = s.state then ({ s with state := st }, .ok ())
+      else
+        match obs st with
+        | none => ({ s with state := st }, .ok ())
+        | some k => ({ s with state := st }, .error (.observer k))
+
+def updateState (cls : Classifier) (s : Store) : Store × Except Exc Unit := updateStateO cls Obs.silent s
 
 /-! ### `consume` -/
 
@@ -175,14 +201,18 @@ def consumeCore (s : Store) (cost : Nat) (cur : Cur) (allowDebt : Bool) (prio : 
       debtPath s1 cost cur allowDebt s1.atp true
   else debtPath s0 cost cur allowDebt (s.bal cur) false
 
-/-- `consume(cost, _, cur, allow_debt, priority)`: the whole lock region. -/
-def consume (cls : Classifier) (s : Store) (cost : Nat) (cur : Cur) (allowDebt : Bool) (prio : Nat) :
+/-- `consume(cost, _, cur, allow_debt, priority)`: the whole lock region, observer `obs` installed. -/
+def consumeO (cls : Classifier) (obs : Obs) (s : Store) (cost : Nat) (cur : Cur) (allowDebt : Bool) (prio : Nat) :
     Store × Except Exc Bool × Branch :=
   let r := consumeCore s cost cur allowDebt prio
   if r.2.success then
-    let u := updateState cls r.1
+    let u := updateStateO cls obs r.1
     (u.1, u.2.map (fun _ => true), r.2)
   else (r.1, .ok false, r.2)
+
+/-- … with no observer -/
+def consume (cls : Classifier) (s : Store) (cost : Nat) (cur : Cur) (allowDebt : Bool) (prio : Nat) :
+    Store × Except Exc Bool × Branch := consumeO cls Obs.silent s cost cur allowDebt prio
 
 /-! ### `regenerate`, `transfer_to` -/
 
@@ -194,15 +224,21 @@ def regenCore (s : Store) (n : Nat) (cur : Cur) : Store :=
     { (s1.setBal cur (min (s.cap cur) (s.bal cur + rem))) with regenerated := s.regenerated + rem }
   else s1
 
-/-- `regenerate(n, cur)`: the whole lock region. -/
+/-- `regenerate(n, cur)`: the whole lock region, observer `obs` installed. -/
+def regenerateO (cls : Classifier) (obs : Obs) (s : Store) (n : Nat) (cur : Cur) : Store × Except Exc Unit :=
+  updateStateO cls obs (regenCore s n cur)
+
 def regenerate (cls : Classifier) (s : Store) (n : Nat) (cur : Cur) : Store × Except Exc Unit :=
-  updateState cls (regenCore s n cur)
+  regenerateO cls Obs.silent s n cur
 
 /-- first lock region of `transfer_to` (own lock): check and deduct; no `_update_state`. -/
 def withdraw (s : Store) (n : Nat) (cur : Cur) : Store × Bool :=
   if s.bal cur < (n : Int) then (s, false) else (s.setBal cur (s.bal cur - n), true)
 
-/-- second region of `transfer_to`: `other.regenerate(n, cur)` under the peer's lock. -/
+/-- second region of `transfer_to`: `other.regenerate(n, cur)` under the peer's lock (the PEER's observer). -/
+def depositO (cls : Classifier) (obs : Obs) (s : Store) (n : Nat) (cur : Cur) : Store × Except Exc Unit :=
+  regenerateO cls obs s n cur
+
 def deposit (cls : Classifier) (s : Store) (n : Nat) (cur : Cur) : Store × Except Exc Unit :=
   regenerate cls s n cur
 
@@ -215,7 +251,9 @@ def convert (s : Store) (n : Nat) : Store × Int :=
 
 def enterDormancy (s : Store) : Store := { s with state := .dormant }
 
-def exitDormancy (cls : Classifier) (s : Store) : Store × Except Exc Unit := updateState cls s
+def exitDormancyO (cls : Classifier) (obs : Obs) (s : Store) : Store × Except Exc Unit := updateStateO cls obs s
+
+def exitDormancy (cls : Classifier) (s : Store) : Store × Except Exc Unit := exitDormancyO cls Obs.silent s
 
 /-- `int(self._debt * self.debt_interest)` for a non-negative debt and rate `rateNum / rateDen`. -/
 def interestAmount (s : Store) : Int := if s.debt > 0 then s.debt * s.rateNum / s.rateDen else 0
@@ -227,7 +265,9 @@ def resetCore (s : Store) : Store :=
   { s with atp := s.maxAtp, gtp := s.maxGtp, nadh := s.maxNadh, debt := 0, ntx := 0,
            consumed := 0, regenerated := 0, ops := 0, failed := 0 }
 
-def reset (cls : Classifier) (s : Store) : Store × Except Exc Unit := updateState cls (resetCore s)
+def resetO (cls : Classifier) (obs : Obs) (s : Store) : Store × Except Exc Unit := updateStateO cls obs (resetCore s)
+
+def reset (cls : Classifier) (s : Store) : Store × Except Exc Unit := resetO cls Obs.silent s
 
 /-! ### histories over a colony of stores -/
 
@@ -267,11 +307,13 @@ def onStore (sys : Sys) (i : Nat) (f : Store → Store × Ret) : Sys × Ret :=
   | some s => let r := f s; (sys.set i r.1, r.2)
   | none => (sys, .noSuchStore)
 
-/-- One call on the colony.  `transfer src dst` is `withdraw` on `src`, then (only if that succeeded)
-    `deposit` on `dst` — read after the withdrawal was written back, so `src = dst` behaves as in Python. -/
-def step (cls : Classifier) (sys : Sys) : Op → Sys × Ret
-  | .consume i cost cur d p => onStore sys i fun s => let r := consume cls s cost cur d p; (r.1, retBool r.2.1)
-  | .regenerate i n cur => onStore sys i fun s => let r := regenerate cls s n cur; (r.1, retUnit r.2)
+/-- One call on the colony; `obs j` is what the observer of store `j` does if it is called during this call.
+    `transfer src dst` is `withdraw` on `src`, then (only if that succeeded) `deposit` on `dst` — read after
+    the withdrawal was written back, so `src = dst` behaves as in Python. -/
+def step (cls : Classifier) (obs : Nat → Obs) (sys : Sys) : Op → Sys × Ret
+  | .consume i cost cur d p =>
+    onStore sys i fun s => let r := consumeO cls (obs i) s cost cur d p; (r.1, retBool r.2.1)
+  | .regenerate i n cur => onStore sys i fun s => let r := regenerateO cls (obs i) s n cur; (r.1, retUnit r.2)
   | .transfer i j n cur =>
     match sys[i]?, sys[j]? with
     | some a, some _ =>
@@ -279,22 +321,48 @@ def step (cls : Classifier) (sys : Sys) : Op → Sys × Ret
       let sys1 := sys.set i w.1
       if w.2 then
         onStore sys1 j fun b =>
-          let r := deposit cls b n cur
+          let r := depositO cls (obs j) b n cur
           (r.1, match r.2 with | .ok _ => .bool true | .error e => .raised e)
       else (sys1, .bool false)
     | _, _ => (sys, .noSuchStore)
   | .convert i n => onStore sys i fun s => let r := convert s n; (r.1, .int r.2)
   | .dorm i => onStore sys i fun s => (enterDormancy s, .none)
-  | .wake i => onStore sys i fun s => let r := exitDormancy cls s; (r.1, retUnit r.2)
+  | .wake i => onStore sys i fun s => let r := exitDormancyO cls (obs i) s; (r.1, retUnit r.2)
   | .interest i => onStore sys i fun s => (applyInterest s, .none)
-  | .reset i => onStore sys i fun s => let r := reset cls s; (r.1, retUnit r.2)
+  | .reset i => onStore sys i fun s => let r := resetO cls (obs i) s; (r.1, retUnit r.2)
 
-/-- Run a history; returns the final colony and what each call returned. -/
-def run (cls : Classifier) : Sys → List Op → Sys × List Ret
-  | sys, [] => (sys, [])
-  | sys, op :: ops =>
-    let r := step cls sys op
-    let rest := run cls r.1 ops
+/-- The observer calls a call makes: `_update_state` runs at the end of a successful `consume`, of
+    `regenerate` (also as the deposit of a transfer whose withdrawal succeeded), `exit_dormancy` and `reset`,
+    and notifies the observer of that store iff the state field changed (`enter_dormancy` writes the state
+    without notifying).  Derived from the states before and after; used by the driver for the call log. -/
+def observerCalls (cls : Classifier) (obs : Nat → Obs) (sys : Sys) (op : Op) : List (Nat × MState) :=
+  let post := (step cls obs sys op).1
+  let at' (i : Nat) (pre : Option Store) : List (Nat × MState) :=
+    match pre, post[i]? with
+    | some a, some b => if b.state = a.state then [] else [(i, b.state)]
+    | _, _ => []
+  match op with
+  | .consume i cost cur d p =>
+    match sys[i]? with
+    | some s => if (consumeCore s cost cur d p).2.success then at' i (some s) else []
+    | none => []
+  | .regenerate i _ _ | .wake i | .reset i => at' i sys[i]?
+  | .transfer i j n cur =>
+    match sys[i]?, sys[j]? with
+    | some a, some _ => if (withdraw a n cur).2 then at' j (sys.set i (withdraw a n cur).1)[j]? else []
+    | _, _ => []
+  | .convert _ _ | .dorm _ | .interest _ => []
+
+/-- Run a history; `adv k j` is the behaviour of store `j`'s observer during step number `k` (an arbitrary
+    stateful observer per store is such a family).  Returns the final colony and what each call returned. -/
+def run (cls : Classifier) (adv : Nat → Nat → Obs) : Nat → Sys → List Op → Sys × List Ret
+  | _, sys, [] => (sys, [])
+  | k, sys, op :: ops =>
+    let r := step cls (adv k) sys op
+    let rest := run cls adv (k + 1) r.1 ops
     (rest.1, r.2 :: rest.2)
+
+/-- no observer installed anywhere -/
+def noObs : Nat → Nat → Obs := fun _ _ => Obs.silent
 
 end Operon.Atp
